@@ -91,6 +91,10 @@ type Scenario struct {
 	Perturb   Perturb   `json:"perturb,omitempty"`
 	Repeat    int       `json:"repeat,omitempty"` // C16: run the scenario this many times in a row
 	Late      []Step    `json:"late,omitempty"`   // calls issued after Wait has returned
+	// CancelAt: cancel the container from inside the library's hook point Point at
+	// its K-th occurrence (1-based), i.e. in the middle of whatever the library is
+	// doing there; Shutdown=true calls Progress.Shutdown from a new goroutine instead.
+	CancelAt *CancelAt `json:"cancel_at,omitempty"`
 }
 
 func (s *Scenario) CountSteps() int {
@@ -106,4 +110,10 @@ func (s *Scenario) CountSteps() int {
 		return c
 	}
 	return n(s.Steps)
+}
+
+type CancelAt struct {
+	Point    string `json:"point"`
+	K        int    `json:"k"`
+	Shutdown bool   `json:"shutdown,omitempty"`
 }
